@@ -1,0 +1,78 @@
+//go:build verif
+
+// Verification hooks (add-only, compiled only with -tags verif): exported wrappers of the unexported
+// pipeline entry points of a forwarding thread so that a harness can drive a Thread synchronously
+// (no goroutine, no Run loop). No behaviour of the package is changed.
+
+package fw
+
+import (
+	"github.com/named-data/ndnd/fw/defn"
+	"github.com/named-data/ndnd/fw/table"
+)
+
+// VerifConfigure sets the package-level configuration normally read by Configure().
+func VerifConfigure(queueSize int, numThreads int) {
+	fwQueueSize = queueSize
+	NumFwThreads = numThreads
+	lockThreadsToCores = false
+}
+
+// VerifProcessIncomingInterest runs the incoming Interest pipeline synchronously.
+func (t *Thread) VerifProcessIncomingInterest(packet *defn.Pkt) {
+	t.processIncomingInterest(packet)
+}
+
+// VerifProcessIncomingData runs the incoming Data pipeline synchronously.
+func (t *Thread) VerifProcessIncomingData(packet *defn.Pkt) {
+	t.processIncomingData(packet)
+}
+
+// VerifDrain processes, synchronously and in arrival order per queue (Interests first), every packet
+// that QueueInterest/QueueData put into the thread's queues. Returns the number of packets processed.
+func (t *Thread) VerifDrain() int {
+	n := 0
+	for {
+		select {
+		case p := <-t.pendingInterests:
+			t.processIncomingInterest(p)
+			n++
+			continue
+		default:
+		}
+		select {
+		case p := <-t.pendingDatas:
+			t.processIncomingData(p)
+			n++
+			continue
+		default:
+		}
+		return n
+	}
+}
+
+// VerifPitCs returns the thread's PIT-CS table.
+func (t *Thread) VerifPitCs() table.PitCsTable {
+	return t.pitCS
+}
+
+// VerifDeadNonceList returns the thread's dead nonce list.
+func (t *Thread) VerifDeadNonceList() *table.DeadNonceList {
+	return t.deadNonceList
+}
+
+// VerifUpdate performs one paired "<-UpdateTimer(); Update()" step of the Run loop.
+func (t *Thread) VerifUpdate() {
+	<-t.pitCS.UpdateTimer()
+	t.pitCS.Update()
+}
+
+// VerifSweepDeadNonces performs the dead-nonce-list branch of the Run loop.
+func (t *Thread) VerifSweepDeadNonces() {
+	t.deadNonceList.RemoveExpiredEntries()
+}
+
+// VerifStop stops the thread's ticker (the Run loop does this on exit).
+func (t *Thread) VerifStop() {
+	t.deadNonceList.Ticker.Stop()
+}
